@@ -14,7 +14,8 @@ is itself cross-checked on every run.  What IS modelled, branch for branch:
   at `maxPrefixLength`, bounds), null, number encoding selection
   (int64 / float64-if-exact-and-not-whole / all digits of a whole number beyond int64 /
   shortest decimal string), collections.
-* `unmarshal` — per target type, what every `Decode*` call of the library
+* `Unmarshal` / `unmarshal` — the exported function takes the optional-attribute annotations
+  off the requested type and calls the recursive one: per target type, what every `Decode*` call of the library
   accepts from every item kind (as far as the Go code relies on it), length and
   shape checks, number decoding, replay of the refinement map through the
   refinement builder of `Refine.lean`, `ListVal`/`MapVal`/`SetVal`/`TupleVal`/
